@@ -11,6 +11,8 @@ META = {
     'level': 'other',
     'configs': {'quick': ['default'], 'thorough': ['default', 'norayon', 'default_nodebug']},
     'rules': {
+        'R7': 'periodic images are complete (C06.R1): every copy of the generator tree shifted by (i,j,k)*width, i,j,k in {-1,0,1} on active axes, is searched — a pruned or missing copy '
+              'leaves cells near that side unclipped, and the measures sum to more than the box',
         'R6': 'no overlap or gap from the candidate loop (C01.R1, C01.R2): every candidate the stream delivers — own periodic images included — either clips the cell with the '
               'perpendicular bisector or ends the loop through the termination test; a dropped candidate leaves that cell too large and the measures sum to more than the box',
         'R1': 'unit thickness: for each dimensionality and at BOTH entry points the box reaching the boundary constructor, the wrapped search and the stored '
@@ -38,7 +40,7 @@ def run(ctx):
     for cfg in ctx.configs_used:
         F = ctx.facts(cfg)
         sfx = '' if cfg == 'default' else '@' + cfg
-        for fn in (r1, r2, r3, r4, r5, r6):
+        for fn in (r1, r2, r3, r4, r5, r6, r7):
             rule = 'C02.' + fn.__name__.upper()
             ctx.guarded(rule, 'evaluate' + sfx, lambda: fn(ctx, F, rule, sfx))
 
@@ -291,3 +293,8 @@ def r6(ctx, F, rule, sfx):
     from . import c01
     c01.r1(ctx, F, rule, sfx)
     c01.r2(ctx, F, rule, sfx)
+
+
+def r7(ctx, F, rule, sfx):
+    from . import c06
+    c06.r1(ctx, F, rule, sfx)
